@@ -1,8 +1,11 @@
 /* C06/4: PPM / PAM.  Cell: W,H, ALPHA, CW (bits per channel), MODE.
- * MODE 0  colour save -> load: save(COLOR_PPM) of a symbolic image writes exactly the header the Netpbm formats define
- *         ("P6 W H MAXVAL\n", or the P7 header with WIDTH/HEIGHT/DEPTH 4/MAXVAL/TUPLTYPE RGB_ALPHA/ENDHDR when the image has
- *         alpha) followed by the raw samples; loading any prefix (symbolic length) raises an exception or reproduces
- *         dimensions, alpha flag, channel width and the checked sample byte exactly.
+ * MODE 0  colour save: save(COLOR_PPM) of a symbolic image writes exactly the canonical file: the header the Netpbm formats
+ *         define ("P6 W H MAXVAL\n", or the P7 header WIDTH/HEIGHT/DEPTH 4/MAXVAL/TUPLTYPE RGB_ALPHA/ENDHDR when the image
+ *         has alpha) followed by the raw samples, nothing else.
+ * MODE 2  colour load: the same canonical file, produced HERE, with symbolic samples: loading any prefix raises an exception
+ *         or reproduces dimensions, alpha flag, channel width and the checked sample byte exactly.
+ *         MODE 0 + MODE 2 together are the save->load identity (the file in between is byte-for-byte the canonical one; the
+ *         split is needed because CBMC does not propagate constants through the snprintf varargs).
  * MODE 1  grayscale input produced HERE: "P5 W H MAXVAL\n" (ALPHA=0) or P7 TUPLTYPE GRAYSCALE_ALPHA (ALPHA=1) with symbolic
  *         samples: the complete file decodes to (g,g,g[,a]) per pixel, W x H, CW-bit channels; prefixes: exception or
  *         identical; the decoder stays inside its buffers (CBMC pointer checks on the exact-size malloc).
@@ -46,6 +49,20 @@ void harness(void) {
   for (uint32_t i = 0; i < hn; i++) ASSERT(file_[i] == exp_[i], "header text is the Netpbm header for this image");
   uint64_t k = in_range(0, N - 1);
   ASSERT(file_[hn + k] == d0[k], "samples are stored raw, row-major, interleaved");
+  w_free(0);
+  return;
+#elif MODE == 2
+  /* independent encoder for colour input */
+#if ALPHA
+  hn = put_str(file_, hn, "P7\nWIDTH "); hn = put_dec(file_, hn, W); hn = put_str(file_, hn, "\nHEIGHT "); hn = put_dec(file_, hn, H);
+  hn = put_str(file_, hn, "\nDEPTH 4\nMAXVAL "); hn = put_dec(file_, hn, MAXV); hn = put_str(file_, hn, "\nTUPLTYPE RGB_ALPHA\nENDHDR\n");
+#else
+  hn = put_str(file_, hn, "P6 "); hn = put_dec(file_, hn, W); hn = put_str(file_, hn, " "); hn = put_dec(file_, hn, H); hn = put_str(file_, hn, " ");
+  hn = put_dec(file_, hn, MAXV); hn = put_str(file_, hn, "\n");
+#endif
+  for (uint32_t i = 0; i < N; i++) { d0[i] = in_u8(); file_[hn + i] = d0[i]; }
+  flen_ = hn + N;
+  uint64_t k = in_range(0, N - 1);
 #else
   /* independent encoder for grayscale input */
 #if ALPHA
@@ -78,7 +95,7 @@ void harness(void) {
     ASSERT(w_width(1) == W && w_height(1) == H && w_has_alpha(1) == ALPHA && w_channel_width(1) == CW && w_data_size(1) == N, "dimensions, alpha flag, channel width reproduced");
     int64_t b = w_data_byte(1, k);
     OBS(b);
-#if MODE == 0
+#if MODE == 2
     ASSERT(b == d0[k], "checked sample byte reproduced exactly");
 #else
     { uint64_t chan = k / BPC, byte = k % BPC, pix = chan / CH, c = chan % CH;
@@ -87,7 +104,4 @@ void harness(void) {
 #endif
     w_free(1);
   }
-#if MODE == 0
-  w_free(0);
-#endif
 }
